@@ -25,6 +25,7 @@ namespace c08
     void (*lazy_extra)() = nullptr;
     unsigned long nbad = 0;
     unsigned long ncalls = 0;
+    const char *ONLY = nullptr;
     std::vector<size_t> large_lengths()
     {
         std::vector<size_t> v = {127, 128, 254, 255, 256, 257, 300, 1000};
@@ -58,6 +59,10 @@ namespace c08
 
     void init_arenas()
     {
+        // every case runs in a process image in which no function under test has been called yet: state hidden in a
+        // function-local static (a cache, a generation counter, a scratch buffer) then cannot make a verdict depend
+        // on which cases the worker happened to run before - the case replays alone exactly as it ran here
+        mc::request_restart();
         static bool done = false;
         if (done)
             return;
